@@ -4,6 +4,7 @@ import (
 	"fmt"
 	"sort"
 	"strconv"
+	"strings"
 
 	"verifh/internal/smt"
 )
@@ -17,8 +18,25 @@ type Violation struct {
 	Known     string            `json:"known_class,omitempty"`
 	Tags      []string          `json:"tags,omitempty"`
 	Decisions []int             `json:"decisions"`
+	Choices   []Choice          `json:"choices"`
 	Model     map[string]string `json:"model,omitempty"`
 	Stack     string            `json:"stack,omitempty"`
+}
+
+// Choice is one harness-visible decision (vx.Choice / BytesUpTo length / fault / schedule).
+type Choice struct {
+	Kind   string `json:"kind"`
+	Chosen int    `json:"chosen"`
+}
+
+func (in *Interp) choiceVector() []Choice {
+	var out []Choice
+	for _, d := range in.log {
+		if strings.HasPrefix(d.Kind, "choice:") || strings.HasPrefix(d.Kind, "len:") || strings.HasPrefix(d.Kind, "fault:") || strings.HasPrefix(d.Kind, "sched:") || d.Kind == "maporder" || d.Kind == "select" {
+			out = append(out, Choice{d.Kind, d.Chosen})
+		}
+	}
+	return out
 }
 
 // PathResult summarises one explored path.
@@ -77,7 +95,7 @@ func (in *Interp) reportViolation(kind, label, msg string, extra *smt.Term, fr *
 	}
 	mk := func(known string, model map[string]string) Violation {
 		return Violation{Label: label, Kind: kind, Msg: msg, Harness: in.cfg.Entry, Known: known,
-			Tags: append(append([]string{}, in.m.tags...), in.res.Tags...), Decisions: in.decisionVector(), Model: model, Stack: stackOf(fr)}
+			Tags: append(append([]string{}, in.m.tags...), in.res.Tags...), Decisions: in.decisionVector(), Choices: in.choiceVector(), Model: model, Stack: stackOf(fr)}
 	}
 	// 1. anything outside every listed class is a new violation
 	outside := tb.And(extra, tb.Not(tb.Or(listed...)))
@@ -222,6 +240,13 @@ func init() {
 		in.assume(in.tb.IntCmp("<=", in.tb.StrLen(v), in.tb.IntLit(int64(max))))
 		return Str{Segs: []Seg{{T: v}}}
 	})
+	reg("HasPrefix", func(in *Interp, fr *frame, a []Value) Value {
+		s, p := a[0].(Str), a[1].(Str)
+		if s.IsConc() && p.IsConc() {
+			return Bool{C: strings.HasPrefix(s.S, p.S)}
+		}
+		return in.mkBoolT(in.tb.StrPrefixOf(in.strTerm(p), in.strTerm(s)))
+	})
 	reg("StrLen", func(in *Interp, fr *frame, a []Value) Value {
 		// symbolic length as a bounded int (only for assumptions): returns concrete when possible
 		s := a[0].(Str)
@@ -330,6 +355,14 @@ func init() {
 		return nil
 	})
 	reg("ClockFreeze", func(in *Interp, fr *frame, a []Value) Value { in.m.clockFrozen = a[0].(Bool).C; return nil })
+	reg("TruncSec", func(in *Interp, fr *frame, a []Value) Value {
+		m := in.concInt(a[1], "TruncSec granularity")
+		if m <= 1 {
+			return a[0]
+		}
+		t := in.timeTruncate(TimeV{Sec: a[0].(BV), Nsec: mkBV(64, 0)}, mkBV(64, uint64(m*nsPerSec)))
+		return t.Sec
+	})
 	reg("TimeLE", func(in *Interp, fr *frame, a []Value) Value {
 		// (s1,n1) <= (s2,n2)
 		x := TimeV{Sec: a[0].(BV), Nsec: a[1].(BV)}
